@@ -67,8 +67,18 @@ func gcd(a, b int) int {
 	return a
 }
 
+// BoundaryCounts are the cell counts at which a wrapper that batches, caps or chunks its goroutines has its fencepost.
+var BoundaryCounts = []int{31, 32, 33, 63, 64, 65, 127, 128, 129, 255, 256, 257, 1023, 1024, 1025, 4095, 4096, 4097}
+
+// GenExact draws a short case with exactly n cells (few parameter sets and input blocks).
+func GenExact(model string, n int) func(t *rapid.T) Case { return genWith(model, n, n, true) }
+
 // GenFor draws a case for the named model ("" = any catalogued model) with 1..maxN cells.
 func GenFor(model string, minN, maxN int) func(t *rapid.T) Case {
+	return genWith(model, minN, maxN, false)
+}
+
+func genWith(model string, minN, maxN int, exact bool) func(t *rapid.T) Case {
 	return func(t *rapid.T) Case {
 		name := model
 		if name == "" {
@@ -82,6 +92,31 @@ func GenFor(model string, minN, maxN int) func(t *rapid.T) Case {
 		c := Case{Model: name, N: rapid.IntRange(minN, maxN).Draw(t, "N"), T: rapid.IntRange(1, maxT).Draw(t, "T")}
 		P := Count(t, c.N, "P")
 		B := Count(t, c.N, "B")
+		sizeClass := rapid.IntRange(0, 23).Draw(t, "sizeClass")
+		if exact {
+			sizeClass = -1
+			c.T = rapid.IntRange(1, 4).Draw(t, "shortT")
+			P = rapid.SampledFrom([]int{1, 2, 3}).Draw(t, "fewP")
+			B = rapid.SampledFrom([]int{1, 2}).Draw(t, "fewB")
+		}
+		switch sizeClass {
+		case 0, 1:
+			// many cells (counts around powers of two: a wrapper that batches or caps its goroutines has its
+			// fencepost there); few parameter sets and input blocks, short series
+			c.N = rapid.SampledFrom([]int{31, 32, 33, 34, 63, 64, 65, 100, 128, 129, 130, 255, 256, 257}).Draw(t, "manyN")
+			if rapid.IntRange(0, 79).Draw(t, "veryMany") == 0 {
+				c.N = rapid.SampledFrom([]int{1023, 1025, 4095, 4096, 4097, 4100}).Draw(t, "veryManyN")
+			}
+			c.T = rapid.IntRange(1, 6).Draw(t, "shortT")
+			P = rapid.SampledFrom([]int{1, 2, 3, 5}).Draw(t, "fewP")
+			B = rapid.SampledFrom([]int{1, 2, 3}).Draw(t, "fewB")
+		case 2, 3:
+			// more parameter sets than cells: the extra sets are simply not used (they still size the tables)
+			P = c.N + rapid.IntRange(1, 3).Draw(t, "moreP")
+		case 4:
+			// more input blocks than cells
+			B = c.N + rapid.IntRange(1, 3).Draw(t, "moreB")
+		}
 		cells := make([]simref.Cell, P)
 		for i := range cells {
 			cells[i] = simref.DrawCell(t, name)
@@ -185,6 +220,20 @@ func Check(c Case) (r pbt.Result) {
 	}
 	if len(tableLens) > 1 {
 		r.Label("table-lengths-differ")
+	}
+	if P > c.N {
+		r.Label("P>N")
+		r.NonTrivial = true
+	}
+	if B > c.N {
+		r.Label("B>N")
+	}
+	if c.N >= 31 {
+		r.Label("many-cells(>=31)")
+		r.NonTrivial = true
+	}
+	if c.N >= 1023 {
+		r.Label("very-many-cells(>=1023)")
 	}
 	if c.CBacked {
 		r.Label("c-backed")
